@@ -5,6 +5,8 @@ usage: killmatrix.py [seed-name ...]"""
 import json, os, subprocess, sys, glob, concurrent.futures as cf
 root = os.path.dirname(os.path.dirname(os.path.abspath(__file__)))
 props = subprocess.run([f"{root}/bin/mwcheck","-list"],capture_output=True,text=True).stdout.split()
+allprops = list(props)
+if os.environ.get("PROPS"): props = [p for p in props if p in os.environ["PROPS"].split(",")]  # partial refresh
 paths = {os.path.basename(os.path.dirname(p)): p for p in glob.glob(f"{root}/seeded/*/patch.diff")}
 paths.update({os.path.basename(p)[:-5]: p for p in glob.glob(f"{root}/mutants/*.diff")})
 seeds = sorted(paths)
@@ -25,9 +27,11 @@ with cf.ThreadPoolExecutor(max_workers=12) as ex:
 old = {}
 path = f"{root}/mutants/KILLMATRIX.json"
 if os.path.exists(path): old = json.load(open(path))
-old.update(res)
+for s_, d_ in res.items():
+    old.setdefault(s_, {}).update(d_)
 json.dump(old, open(path,"w"), indent=1, sort_keys=True)
 for s in sorted(res):
     own = s.split("-")[0]
-    killers = [p for p in props if res[s][p]["rc"] == 1]
-    print(s, "own:", "KILLED" if own in killers else "missed", "by:", ",".join(killers), "rc!=0/1:", [p for p in props if res[s][p]["rc"] not in (0,1)])
+    full = old[s]
+    killers = [p for p in allprops if p in full and full[p]["rc"] == 1]
+    print(s, "own:", "KILLED" if own in killers else "missed", "by:", ",".join(killers), "rc!=0/1:", [p for p in allprops if p in full and full[p]["rc"] not in (0,1)])
